@@ -57,9 +57,10 @@ Section Stream.
 Variable tb : tables.
 Variable cs : consts.
 Variable c : cfg.
+Variable enc : encf.
 
 Definition emit (l : list ascii) : list ascii :=
-  match redact_line tb cs c l with Out o => o ++ [nl] | Skip => [] end.
+  match redact_line tb cs c enc l with Out o => o ++ [nl] | Skip => [] end.
 
 (* the loop; bar = Some (current, max) models the progress bar consulted for blank lines *)
 Fixpoint loop (tokens : list (list ascii)) (writer : nat -> wres) (widx : nat)
@@ -70,7 +71,7 @@ Fixpoint loop (tokens : list (list ascii)) (writer : nat -> wres) (widx : nat)
     let bar' := match bar with Some (cur, mx) => Some (S cur, mx) | None => None end in
     let blank_special := match t, bar with [], Some (cur, mx) => Nat.eqb cur mx | _, _ => false end in
     if blank_special then loop r writer widx bar' written final else
-    match redact_line tb cs c t with
+    match redact_line tb cs c enc t with
     | Skip => loop r writer widx bar' written final
     | Out o =>
       let chunk := o ++ [nl] in
